@@ -162,6 +162,30 @@ class Rig:
         for d in self.devs:
             await d.power_on()
 
+    def delay_acl(self, delays):
+        """Order-preserving delays: ACL data sent by controller k is handed to the link
+        delays[k] event-loop iterations later, each direction a FIFO."""
+        import collections
+        orig = self.link.send_acl_data
+        queues = [collections.deque(), collections.deque()]
+        clock = [0]
+
+        def send(sender, destination, transport, data):
+            k = 0 if sender is self.ctrls[0] else 1
+            if delays[k] <= 0 and not queues[k]:
+                return orig(sender, destination, transport, data)
+            queues[k].append((clock[0] + delays[k], (sender, destination, transport, data)))
+
+        async def pump():
+            while True:
+                await asyncio.sleep(0)
+                clock[0] += 1
+                for q in queues:
+                    while q and q[0][0] <= clock[0]:
+                        orig(*q.popleft()[1])
+        self.link.send_acl_data = send
+        self._pump = asyncio.ensure_future(pump())
+
     async def settle(self, rounds=40):
         for _ in range(rounds):
             await asyncio.sleep(0)
@@ -318,6 +342,8 @@ async def run_pairing_async(case):
         obs['hang'] = 'connect'
         return obs
     conn = {'i': rig.conns[c], 'r': rig.conns[p]}
+    if case.get('link_delay'):
+        rig.delay_acl(case['link_delay'])
     events = {'i': [], 'r': []}
     for side in ('i', 'r'):
         conn[side].on('pairing', lambda keys, side=side: events[side].append(('pairing', keys)))
@@ -988,7 +1014,8 @@ def gen_cases(ctx):
     if quick:
         for _ in range(50):
             cases.append({'i': rand_cfg(rng), 'r': rand_cfg(rng), 'central': rng.below(2),
-                          'passkey': rng.choice([0, 1, 999999, rng.below(1000000)])})
+                          'passkey': rng.choice([0, 1, 999999, rng.below(1000000)]),
+                          'link_delay': [rng.choice([0, 0, 1, 2, 5]), rng.choice([0, 0, 1, 3])]})
     else:
         for i in range(5):
             for r in range(5):
@@ -996,7 +1023,8 @@ def gen_cases(ctx):
                     sci, scr, mi, mr, bi, br = [(bits >> k) & 1 for k in range(6)]
                     cases.append({'i': rand_cfg(rng, io=i, sc=sci, mitm=mi, bonding=bi),
                                   'r': rand_cfg(rng, io=r, sc=scr, mitm=mr, bonding=br),
-                                  'central': rng.below(2), 'passkey': rng.below(1000000)})
+                                  'central': rng.below(2), 'passkey': rng.below(1000000),
+                                  'link_delay': [rng.choice([0, 0, 1, 2, 5]), rng.choice([0, 0, 1, 3])]})
     # 3. masks: every negotiated (initiator, responder) mask pair, legacy and SC (thorough), sampled (quick)
     pairs = [(a, b) for a in range(16) for b in range(16)]
     if quick:
@@ -1018,7 +1046,8 @@ def gen_cases(ctx):
                                   'r': rand_cfg(rng, io=r, sc=sc, mitm=mitm, bonding=1),
                                   'fault': fault, 'fault_side': fs, 'central': rng.below(2),
                                   'passkey': rng.below(1000000),
-                                  'passkey_delta': rng.choice([1, 2, 1 << 10, 1 << 19, 999999])})
+                                  'passkey_delta': rng.choice([1, 2, 1 << 10, 1 << 19, 999999]),
+                                  'link_delay': [rng.choice([0, 0, 2]), rng.choice([0, 0, 3])]})
     # 5. out of band (exercised against the oracle only)
     for kind in OOB_KINDS:
         scs = (1,) if kind.startswith('sc_') else (0, 1)
